@@ -26,7 +26,7 @@ RULE = ('split_path: directed corpus (docstring examples, boundaries), complete 
         'enumeration of pairs of items of length <= 2 over {comma, quote, backslash, space, a, n} and triples of '
         'length <= 1, seeded lists of 1..5 items over printable ASCII, damaged texts per malformation type; '
         'distinct by text')
-REQUIRED_CLAUSES = ['under-lazy-translation', 'path-keyword-call', 'path-must-accept', 'path-must-reject', 'path-min-gt-max', 'path-no-leading-slash',
+REQUIRED_CLAUSES = ['malformed-quoting-rejected-in-bounded-work', 'path-history-independent', 'concurrent-calls-answer-as-alone', 'under-lazy-translation', 'path-keyword-call', 'path-must-accept', 'path-must-reject', 'path-min-gt-max', 'path-no-leading-slash',
                     'path-empty-leading-segment', 'path-trailing-slash', 'path-rest-with-last',
                     'path-none-padding', 'path-dont-care-shape', 'path-result-shape',
                     'commas-round-trip', 'commas-return-type', 'commas-must-reject', 'commas-dont-care']
@@ -41,6 +41,7 @@ ASSUMPTIONS = ['a trailing slash may either count as a present empty segment or 
                'items containing a single quote are double-quoted too; white space, backslashes outside quotes and '
                'escapes other than \\\\ and \\" are DONT-CARE for split_by_commas']
 INTERPRETER_FLAGS = [[], ['-O'], [], ['-bb']]
+CONCURRENT = lambda case: True          # pure functions of their arguments; see vlib/concurrent.py
 SHARDS = {'quick': 4, 'thorough': 16}
 
 SEG_CLASSES = ['plain', 'empty', 'dot', 'dotdot', 'spaced', 'unicode']
@@ -207,6 +208,23 @@ def eval_path(ctx, case):
         ctx.clause('path-none-padding')
     if list(got) not in lists:
         ctx.fail('path-result', case, detail)
+    elif isinstance(got, list):
+        # the returned list belongs to the caller: consuming / editing it does not show in the answer to the same
+        # question asked again
+        ctx.clause('path-history-independent')
+        first = list(got)
+        if got:
+            got.pop()
+        got.insert(0, 'consumed-by-caller')
+        try:
+            if case.get('defaults'):
+                again = strutils.split_path(path)
+            else:
+                again = strutils.split_path(path, minsegs, maxsegs, rest)
+        except BaseException as e:  # noqa
+            again = e
+        if not isinstance(again, (list, tuple)) or list(again) != first:
+            ctx.fail('path-history-independent', case, {'path': path, 'first_call': first, 'second_call': again})
 
 
 # ---------------------------------------------------------------------------
@@ -299,7 +317,52 @@ def eval_commas(ctx, case):
             ctx.fail('commas-history-independent', case, {'text': text, 'second_call': again, 'want': want})
 
 
+def eval_growth(ctx, case):
+    """Bounded progress for rejecting malformed quoting, decided on growth rather than on a deadline: the CPU time of the
+    call (time.process_time of this process, not wall time) is measured for bodies of 8, 10, 12 ... plain characters.
+    Rejection that takes a constant factor longer for every two more characters, three steps in a row, up to more than a
+    second, is exponential work on a 30-character input - the call would not return in any caller's lifetime for 60.
+    The ladder stops at the first call above 1.5 s, so the check itself always terminates."""
+    import time
+    from oslo_utils import strutils
+    family = case['family']
+    times = []
+    for L in range(8, 41, 2):
+        body = ('x' * L)
+        text = {'unclosed-quote': 'a,"' + body, 'text-after-closing-quote': '"' + body + '"b,c',
+                'unclosed-quote-with-escapes': 'a,"' + ('x\\"' * (L // 3 + 1))[:L],
+                'quote-in-the-middle': body + '"' + body}[family]
+        best = None
+        for _rep in range(2):
+            t0 = time.process_time()
+            try:
+                strutils.split_by_commas(text)
+                outcome = 'returned'
+            except ValueError:
+                outcome = 'ValueError'
+            except BaseException as e:  # noqa
+                outcome = type(e).__name__
+            dt = time.process_time() - t0
+            best = dt if best is None else min(best, dt)
+            if dt > 1.5:
+                break
+        times.append((L, best, outcome))
+        if best > 1.5:
+            break
+    ctx.case(('growth', family))
+    ctx.clause('malformed-quoting-rejected-in-bounded-work')
+    ctx.h('split_by_commas growth ladder', '%s: %d steps, slowest %.3fs' % (family, len(times), max(t for _l, t, _o in times)))
+    floor = 5e-4
+    steps = [(b[1] + floor) / (a[1] + floor) for a, b in zip(times, times[1:])]
+    if times[-1][1] > 1.0 and len(steps) >= 3 and all(r >= 2.0 for r in steps[-3:]):
+        ctx.fail('malformed-quoting-rejected-in-bounded-work', case,
+                 {'family': family, 'cpu_seconds_by_body_length': [[l, round(t, 4)] for l, t, _o in times],
+                  'growth_per_two_characters': [round(r, 1) for r in steps]})
+
+
 def evaluate(ctx, case):
+    if case.get('kind') == 'growth':
+        return eval_growth(ctx, case)
     if case.get('lazy_i18n'):
         from vlib import envmodes
         ctx.clause('under-lazy-translation')
@@ -385,6 +448,17 @@ DC_LITERALS = ['a b', ' a', 'a ', 'a , b', '"a" , "b"', ' "a"', '"a" ', 'a\\b', 
                '"a\nb"', 'a\nb', '"\\x"', '"\\n"', '"a\\,b"', ' ', 'a, ', ' ,a', 'é', '"é"', 'a\\,b']
 
 
+
+def HAMMER(ctx):
+    from oslo_utils import strutils
+    out = []
+    for v in ('one', 'x,y,z', 'a,"b,c",d', '"q\\"uote",plain', 'k1=v1,k2=v2,k3=v3', '', '"open', 'a b,c', '1,2,3,4,5,6,7,8,9'):
+        out.append(('split_by_commas(%r)' % v, lambda t=v: strutils.split_by_commas(t)))
+    for a in (('/a/c/o', 1, 3, True), ('/a', 1, 2, False), ('/v1/acct/cont', 2, 3, False), ('/a/c/o/x/y', 1, 3, True),
+              ('a/c', 1, 2, False), ('/a//o', 1, 3, False), ('/v1/a/c/o', 1, 4, True)):
+        out.append(('split_path%r' % (a,), lambda t=a: strutils.split_path(*t)))
+    return out
+
 def run(ctx):
     idx = 0
 
@@ -409,6 +483,10 @@ def run(ctx):
             case = dict(case, kw=True)
         ctx.sample(case['kind'] + '/' + (case.get('cls') or ''), case)
         evaluate(ctx, case)
+
+    if ctx.shard == 0:
+        for family in ('unclosed-quote', 'text-after-closing-quote', 'unclosed-quote-with-escapes', 'quote-in-the-middle'):
+            own({'kind': 'growth', 'family': family})
 
     def blocks(stream, total, size=512):
         """(index, rng) for the blocks of the seeded stream that belong to this worker; every block has its
